@@ -35,6 +35,8 @@ def run(facts, rep, ctx):
     ok_provenance(facts, rep, R5)
     R6 = rep.rule("R11.6", "no check of mila's own rejects a conforming stream before the decoder sees it (evaluated at extreme conforming streams)", floor=3)
     pre_decoder_rejections(facts, rep, R6)
+    R7 = rep.rule("R11.7", "LZ13 entry point: every input shorter than the 4-byte header is rejected, whatever its first byte (decision table over lengths 0..3 x first byte)", floor=1)
+    short_input_rule(facts, rep, R7)
 
 
 # Conforming streams at the edge of what the formats allow: one literal, then the longest run the format can express
@@ -77,6 +79,56 @@ def pre_decoder_rejections(facts, rep, R6):
                     b.name.rsplit("::", 2)[-2] + "::decompress", rejected, what, len(stream), " ".join("%02x" % x for x in stream)), "%s:%s" % (b.file, b.line))
             elif outs:
                 rep.ok(R6, {"fn": b.name, "stream": what, "reaches": "the decoder / the stored copy"})
+
+
+def short_input_rule(facts, rep, R7):
+    """Input shorter than the 4-byte header yields an error, whatever its first byte says it is: the LZ13 entry
+    point evaluated at every length 0..3 for the first bytes 0x00 (stored), 0x10, 0x11 (bare), 0x13 (wrapper), 0x42."""
+    from summ import Evaluator, Ref, Adt, Unknown, Panic, SeqVal, deref
+
+    def _first(ev, args, depth):
+        v = deref(args[0])
+        v = v.items if isinstance(v, SeqVal) else v
+        if not isinstance(v, (tuple, bytes, list)):
+            raise Unknown("first of %r" % (type(v).__name__,))
+        return Adt("core::option::Option", "Some", (Ref(v[0]),)) if len(v) else Adt("core::option::Option", "None", ())
+    E = Evaluator(facts)
+    # (models local to this rule: the byte strings here are concrete tuples)
+    E.models["core::slice::<impl [T]>::first"] = _first
+    E.models["core::slice::<impl [T]>::to_vec"] = lambda ev, args, depth: deref(args[0])
+    b = facts.ibody(LZ13 + "::decompress", combinators=True)
+    if b is None:
+        rep.inconc(R7, "anchor LZ13CompressionFormat::decompress missing")
+        return
+    undecided = None
+    rows = 0
+    for first in (0x00, 0x10, 0x11, 0x13, 0x42):
+        for n in range(0, 4):
+            if n == 0 and first:
+                continue
+            stream = tuple([first] + [0] * (n - 1)) if n else ()
+            try:
+                outs = E.outcomes(b, [Ref(Adt("opaque", "S")), Ref(stream)])
+            except (Unknown, Panic, RecursionError, PathLimit) as u:
+                undecided = "%d byte(s) starting 0x%02x: not evaluable (%s)" % (n, first, str(u)[:60])
+                continue
+            rows += 1
+            for o in outs:
+                p = o["path"]
+                if o["definite"] and o["panic"]:
+                    rep.violation(R7, b.name, "short-input-panics", "LZ13 decompress panics (%s) on the %d-byte input %s: input shorter than a header must yield an error" % (
+                        o["panic"], n, " ".join("%02x" % x for x in stream) or "(empty)"), "%s:%s" % (b.file, b.line))
+                    return
+                if o["definite"] and not o["panic"] and p.end == "ret" and is_err_term(p.ret) is False:
+                    rep.violation(R7, b.name, "short-input-accepted", "LZ13 decompress returns Ok for the %d-byte input %s: it is shorter than the 4-byte header and must be rejected (only the length decides this, not the first byte)" % (
+                        n, " ".join("%02x" % x for x in stream) or "(empty)"), "%s:%s" % (b.file, b.line))
+                    return
+            if not all(o["definite"] and not o["panic"] and is_err_term(o["path"].ret) is True for o in outs):
+                undecided = undecided or "%d byte(s) starting 0x%02x: an outcome other than an error could not be excluded" % (n, first)
+    if undecided:
+        rep.inconc(R7, "LZ13 decompress on short input: " + undecided)
+    elif rows:
+        rep.ok(R7, {"fn": b.name, "short_inputs_rejected": rows})
 
 
 def dispatch(facts, rep, R1):
